@@ -36,6 +36,9 @@ type SemOpts struct {
 	// extra edges from the root) and every file has a service extending the
 	// next file's service: long inheritance chains across modules
 	ChainMode bool
+	// ScalarDefaultsOnly: no default contains a struct literal (used where field
+	// sets are edited afterwards: struct literal keys would go stale)
+	ScalarDefaultsOnly bool
 	// ServiceBias: more services, inheritance chains preferably across files
 	ServiceBias bool
 	// DupLiterals: set literals may repeat an item (legal for a set; used where
@@ -255,6 +258,13 @@ func GenProgram(r *core.Rand, o SemOpts) *Program {
 		for _, di := range g.all {
 			if s, ok := di.def.(*Struct); ok && s.Kind != KUnion {
 				for _, f := range s.Fields {
+					if o.ScalarDefaultsOnly {
+						in := map[*Struct]bool{}
+						structsIn(f.Type, in, 0)
+						if len(in) > 0 {
+							continue
+						}
+					}
 					if r.Chance(1, 3) && g.canHaveLiteral(f.Type) && g.defaultOK(di, f) {
 						g.structLimit = di.rank
 						f.Default = g.constFor(di.file, f.Type, math.MaxInt32, 1)
@@ -963,6 +973,15 @@ func (g *semGen) constFor(f *File, t *TypeRef, maxConstRank int, depth int) *Con
 					}
 				}
 				fl := ok[r.Intn(len(ok))]
+				if depth <= 0 {
+					// out of depth budget: take a member that does not open another struct value
+					for _, cand := range ok {
+						if structLike(cand.Type) == nil {
+							fl = cand
+							break
+						}
+					}
+				}
 				c.Items = append(c.Items, &Const{Kind: CString, Str: fl.Name}, g.constFor(f, fl.Type, maxConstRank, depth-1))
 				c.ItemPos = append(c.ItemPos, Pos{})
 				return c
